@@ -87,6 +87,16 @@ func (p proxyHandler) ServeHTTP(rw http.ResponseWriter, req *http.Request) {
 	if req.ContentLength == 0 {
 		outreq.Body = http.NoBody
 	}
+	if req.ContentLength > 0 {
+		// The server closes the request body as soon as the response header is written. The transport,
+		// having sent ContentLength bytes, reads the body once more to see its end; when the response has
+		// begun by then that read fails, the transport drops the upstream connection and the response body
+		// is cut short. A length-limited reader answers that last read with io.EOF by itself.
+		outreq.Body = struct {
+			io.Reader
+			io.Closer
+		}{io.LimitReader(req.Body, req.ContentLength), req.Body}
+	}
 	if outreq.Body != nil {
 		defer outreq.Body.Close()
 	}
